@@ -20,7 +20,7 @@ Theorem C08_safety : forall c ops sch, let s := run c sch (init ops) in
   dones l ++ dq s = map fst (committed l).
 Proof. exact safety. Qed.
 
-(* COMPLETENESS (repaired code), part proved: a Stop call that is invoked in a state where the writer goroutine
+(* COMPLETENESS (repaired code), life-cycle level: a Stop call that is invoked in a state where the writer goroutine
    exists and that has returned: the writer has terminated, nothing is queued, no Enqueue call is past its running
    check, every BatchWrite is committed and every committed object has had its BatchWriteDone, Wait is open. *)
 Theorem C08_complete_partial : forall c ops sch1 sch2 ts r, fixedc c ->
@@ -40,9 +40,11 @@ Theorem C08_enqueue_returned_writer_exists : forall c ops s t o v r, fixedc c ->
   nth_error (thr s) t = Some (OEnq o v, PRet r) -> spawned s = true.
 Proof. exact enq_returned_spawned. Qed.
 
-(* The full completeness statement (not proved; missing: the per-object invariant "content changed after the last
-   BatchWrite => object queued / held by a sender / in the writer's hands, or its last Enqueue is before the flag test
-   or was rejected"; checked on every run by the Go oracle and Corr.free_ok instead). *)
+(* COMPLETENESS, value level (repaired code): an Enqueue(o) call t that has returned "accepted" (RAcc) or "already
+   scheduled" (RDup) in a state s1 in which the Stop call ts was not yet invoked; when ts has returned (s2), and t is the
+   last Enqueue invocation on o, the store holds the content v that t announced and o is not dirty (no content change
+   after its last BatchWrite).  With C08_complete_partial (every BatchWrite committed, every committed object Done)
+   and C08_safety (store = last committed BatchWrite) this is: written, committed, BatchWriteDone called. *)
 Definition C08_complete_full_statement : Prop := forall c ops sch1 sch2 t ts o v r r', fixedc c ->
   let s1 := run c sch1 (init ops) in
   let s2 := run c sch2 s1 in
@@ -52,7 +54,22 @@ Definition C08_complete_full_statement : Prop := forall c ops sch1 sch2 t ts o v
   last_setter (log s2) o = Some (t, v) ->
   store s2 o = Some v /\ dirty (log s2) o = false.
 
-(* NO BLOCKING (repaired code), part proved: a call past its running check is never abandoned by the writer
+Theorem C08_complete : C08_complete_full_statement.
+Proof. exact complete. Qed.
+
+(* The same for every accepted call, also when a later Enqueue on the same object was invoked (and possibly rejected):
+   a BatchWrite(o) follows the invocation of t in the log (wsince scans the log newest-first for a BatchWrite(o) before
+   reaching t's invocation event). *)
+Theorem C08_complete_written : forall c ops sch1 sch2 t ts o v r r', fixedc c ->
+  let s1 := run c sch1 (init ops) in
+  let s2 := run c sch2 s1 in
+  nth_error (thr s1) t = Some (OEnq o v, PRet r) -> (r = RAcc \/ r = RDup) ->
+  nth_error (thr s1) ts = Some (OStop, PIdle) ->
+  nth_error (thr s2) ts = Some (OStop, PRet r') ->
+  wsince (log s2) t o = true.
+Proof. exact complete_written. Qed.
+
+(* NO BLOCKING (repaired code), supporting facts: a call past its running check is never abandoned by the writer
    (the writer is alive and scheduledCount >= 1 keeps it alive), and once the writer has terminated Wait is open,
    running is false, the queue is empty and no call is past its running check. *)
 Theorem C08_no_block_partial_sender : forall c ops s t o p, fixedc c -> reach c ops s ->
@@ -64,9 +81,21 @@ Theorem C08_no_block_partial_after_exit : forall c ops s, fixedc c -> reach c op
   wg s = 0 /\ running s = false /\ queue s = [] /\ cnt inF (thr s) = 0.
 Proof. exact after_exit. Qed.
 
-(* full statement (not proved): no reachable state of the repaired code is stuck with an unfinished call *)
+(* NO BLOCKING (repaired code; every queue size incl. rendezvous, every batch size, every script, every schedule):
+   a reachable state in which no thread has an enabled step has no unfinished call.  Equivalently (C08_progress): while
+   some call has not returned, some thread can move.  (The writer's time-out / default branches are always enabled
+   while it lives, so the content of the theorem is in the states without a live writer: Wait is open, nobody is parked
+   at a send, the mutex / Once holder can move.  Termination under a fair scheduler is not formalised.) *)
 Definition C08_no_block_full_statement : Prop := forall c ops s, fixedc c -> reach c ops s -> stuckb c s = true ->
   forall i o p, nth_error (thr s) i = Some (o, p) -> exists r, p = PRet r.
+
+Theorem C08_no_block : C08_no_block_full_statement.
+Proof. exact no_block. Qed.
+
+Theorem C08_progress : forall c ops s i o p, fixedc c -> reach c ops s ->
+  nth_error (thr s) i = Some (o, p) -> (forall r, p <> PRet r) ->
+  exists t ch s', t <= length (thr s) /\ In ch choices /\ step c s t ch = Some s'.
+Proof. exact progress. Qed.
 
 (* PINNED CODE - refuted (D08a, D08b); both repaired by fix: commits, the model's fixed variant mirrors the repair *)
 Theorem C08_refuted_wg_pinned :
@@ -101,6 +130,23 @@ Example C08_complete_nonvacuous :
   nth_error (thr s2) 2 = Some (OStop, PRet (RStop true)) /\ store s2 1 = Some 2.
 Proof. vm_compute. repeat split; reflexivity. Qed.
 
+(* non-vacuity of C08_complete / C08_complete_written: Enqueue(0) returned "accepted" before Stop is invoked *)
+Example C08_complete_value_nonvacuous :
+  let s1 := run (fixed 1 1) (rep 10 1 ++ rep 2 0 ++ [(1, CStep)]) (init ops_d08b) in
+  let s2 := run (fixed 1 1) (skipn 13 sch_race_fixed) s1 in
+  nth_error (thr s1) 0 = Some (OEnq 0 1, PRet RAcc) /\ nth_error (thr s1) 2 = Some (OStop, PIdle) /\
+  nth_error (thr s2) 2 = Some (OStop, PRet (RStop true)) /\ last_setter (log s2) 0 = Some (0, 1) /\
+  store s2 0 = Some 1 /\ dirty (log s2) 0 = false /\ wsince (log s2) 0 0 = true.
+Proof. vm_compute. repeat split; reflexivity. Qed.
+
+(* non-vacuity of C08_no_block: a reachable stuck state of the repaired code (everything returned, writer gone), and a
+   reachable state with unfinished calls (not stuck); contrast: C08_refuted_block_pinned *)
+Example C08_no_block_nonvacuous :
+  reach (fixed 1 1) ops_d08b (s_race_fixed 1) /\ stuckb (fixed 1 1) (s_race_fixed 1) = true /\
+  thr (s_race_fixed 1) = [(OEnq 0 1, PRet RAcc); (OEnq 1 2, PRet RAcc); (OStop, PRet (RStop true))] /\
+  stuckb (fixed 0 1) (run (fixed 0 1) (rep 10 1) (init ops_d08b)) = false.
+Proof. split. exists sch_race_fixed; reflexivity. vm_compute. repeat split; reflexivity. Qed.
+
 Example C08_sender_nonvacuous :
   let s := run (fixed 0 1) (rep 10 1) (init ops_d08b) in
   nth_error (thr s) 0 = Some (OEnq 0 1, PE ESend) /\ wp s = WHead /\ sched s = 1%Z.
@@ -108,6 +154,10 @@ Proof. vm_compute. repeat split; reflexivity. Qed.
 
 Print Assumptions C08_safety.
 Print Assumptions C08_complete_partial.
+Print Assumptions C08_complete.
+Print Assumptions C08_complete_written.
+Print Assumptions C08_no_block.
+Print Assumptions C08_progress.
 Print Assumptions C08_enqueue_returned_writer_exists.
 Print Assumptions C08_no_block_partial_sender.
 Print Assumptions C08_no_block_partial_after_exit.
